@@ -67,6 +67,15 @@ type (
 		unexp
 		W string
 	}
+	// an embedded struct of unexported type with a json name: an ordinary field to encoding/json
+	TaggedUnexp struct {
+		unexp `json:"ut"`
+		Z     int `json:"z,omitempty"`
+	}
+	TaggedUnexpOmit struct {
+		unexp `json:"uo,omitzero"`
+		W     string
+	}
 	Mixed struct {
 		A int8      `json:"a"`
 		B *uint16   `json:"b"`
@@ -145,6 +154,7 @@ var Pool = []PoolEntry{
 	{"Inner", reflect.TypeFor[Inner](), "struct"}, {"Base", reflect.TypeFor[Base](), "struct"}, {"Shadow", reflect.TypeFor[Shadow](), "struct"},
 	{"PtrEmbed", reflect.TypeFor[PtrEmbed](), "struct"}, {"Deep", reflect.TypeFor[Deep](), "struct"}, {"WithUnexp", reflect.TypeFor[WithUnexp](), "struct"},
 	{"Mixed", reflect.TypeFor[Mixed](), "struct"}, {"Described", reflect.TypeFor[Described](), "struct"},
+	{"TaggedUnexp", reflect.TypeFor[TaggedUnexp](), "struct"}, {"TaggedUnexpOmit", reflect.TypeFor[TaggedUnexpOmit](), "struct"},
 	{"DashInner", reflect.TypeFor[DashInner](), "struct"}, {"DashMid", reflect.TypeFor[DashMid](), "struct"},
 	{"Rec", reflect.TypeFor[Rec](), "recursive"}, {"RecA", reflect.TypeFor[RecA](), "recursive"}, {"RecB", reflect.TypeFor[RecB](), "recursive"}, {"RecMap", reflect.TypeFor[RecMap](), "recursive"},
 	{"NFunc", reflect.TypeFor[NFunc](), "unsupported"}, {"NChan", reflect.TypeFor[NChan](), "unsupported"}, {"NIntMap", reflect.TypeFor[NIntMap](), "unsupported"},
@@ -561,6 +571,18 @@ func PtrRecvByValueNonAddressable(td *TD) bool {
 	return walk(td, true)
 }
 
+// EmbeddedStruct reports whether sf is an embedded field of struct type (or pointer to struct).
+func EmbeddedStruct(sf reflect.StructField) bool {
+	if !sf.Anonymous {
+		return false
+	}
+	t := sf.Type
+	if t.Kind() == reflect.Pointer {
+		t = t.Elem()
+	}
+	return t.Kind() == reflect.Struct
+}
+
 // validTagName mirrors encoding/json's isValidTag.
 func validTagName(s string) bool {
 	if s == "" {
@@ -817,12 +839,14 @@ func visibleJSONFields(t reflect.Type) []reflect.StructField {
 			if tag == "-" {
 				continue
 			}
-			if et.Kind() == reflect.Struct && !(sf.IsExported() && validTagName(tn)) {
+			if et.Kind() == reflect.Struct && !validTagName(tn) {
 				out = append(out, visibleJSONFields(et)...)
 				continue
 			}
 		}
-		if !sf.IsExported() {
+		if !sf.IsExported() && !EmbeddedStruct(sf) {
+			// (an embedded struct that got this far carries a json name: an ordinary field to
+			// encoding/json even when its type is unexported)
 			continue
 		}
 		if tag, ok := sf.Tag.Lookup("json"); ok && tag == "-" {
@@ -999,7 +1023,7 @@ func fieldRecs2(t reflect.Type, out *[]nameRec, suppressed bool) {
 			tag := sf.Tag.Get("json")
 			tn, _, _ := strings.Cut(tag, ",")
 			if et.Kind() == reflect.Struct {
-				named := sf.IsExported() && validTagName(tn)
+				named := validTagName(tn)
 				fieldRecs2(et, out, suppressed || tag == "-" || named)
 				if tag == "-" || !named {
 					continue
@@ -1008,7 +1032,9 @@ func fieldRecs2(t reflect.Type, out *[]nameRec, suppressed bool) {
 				continue
 			}
 		}
-		if !sf.IsExported() {
+		if !sf.IsExported() && !EmbeddedStruct(sf) {
+			// (an embedded struct that got this far carries a json name: an ordinary field to
+			// encoding/json even when its type is unexported)
 			continue
 		}
 		if suppressed {
